@@ -160,6 +160,15 @@ Lemma from_json_witnesses_fixed :
   from_json js_fixed w_container_key = Err 4.
 Proof. split; vm_compute; reflexivity. Qed.
 
+(* a container where a key is expected stays accepted by the repaired parser (the repository's test-url
+   parses such a lenient text); the repaired and the pinned parser agree on it *)
+Definition w_lenient : bytes :=   (* {'a': 'b': {'c': 'd'}} *)
+  [123; 39; 97; 39; 58; 32; 39; 98; 39; 58; 32; 123; 39; 99; 39; 58; 32; 39; 100; 39; 125; 125].
+Lemma from_json_lenient_container_key :
+  from_json js_fixed w_lenient = from_json js_pinned w_lenient /\
+  exists d, from_json js_fixed w_lenient = Ok d /\ d <> empty_data.
+Proof. split; [vm_compute; reflexivity|]. eexists. split; [vm_compute; reflexivity|discriminate]. Qed.
+
 (* the empty value -- the only representation of an empty array or map -- is written as null and
    read back as the atom "null" *)
 Definition w_empty_nested : data := D false [] [] [([97], empty_data)].
